@@ -17,7 +17,12 @@ import UF.Model.Shortcut
     model's `Re`;
   * the selection loop is group A's `pickLongest`.
 
-  Validated against the real `findRegexpShortcut` by the op `i2.reshortcut` (harness/op_i2_re.go).
+    (Group P3, REVIEW2 F3: round 2 of `factor` compares leading literals with `Regexp.Equal`, which
+    ignores the fold flag — `itemEq`; when the expression has a source of case-folded literals the
+    answer is given only where `goReq` selects what the replay of Go's parser, `Re.quirkReq`, selects.)
+
+  Validated against the real `findRegexpShortcut` by the ops `i2.reshortcut` (harness/op_i2_re.go,
+  harness/op_quirk.go).
   Domain: ASCII pattern text inside the subset of `parseRE`; `none` otherwise.
 -/
 namespace UF.I2
